@@ -166,7 +166,7 @@ def run(ctx, proof):
             env, _ = envlib.make_env(n, comp, "exploitability", None, games.minimal_ids(n), [v])
             expl = [c.id for c in env.explorable_coalitions]
             found = False
-            for walk in range(8 if ctx.quick else 30):
+            for walk in range(8 if ctx.quick else 12):
                 if found:
                     break
                 env.reset()
